@@ -7,6 +7,7 @@ destructor and exit chain.  Not decided: that the table's size equals the number
 from ..facts import AnalysisBroken
 from ..model import sx, walk, is_var, is_field, const_of, vars_in, root_var, on_path
 from .. import rules, core, uar
+from . import c19
 
 EXPLANATION = (
     'Rules: (WMC.1) the request table is inserted into only by the announce handler, with the allocation '
@@ -18,7 +19,10 @@ EXPLANATION = (
     'announce handler (else NULL) and destroyed only in the cleanup; (FMT.1) the in-use figure of the '
     'statistics line is the table\'s element count; (WIRE.2) atexit -> exit functions -> unload all modules '
     '-> per-module cleanup -> the module\'s destructor, which frees the input buffer, the read event, the '
-    'table (with disposal) and the registry; (UAR.1) no request is used after a call that may retire it.')
+    'table (with disposal) and the registry; (UAR.1) no request is used after a call that may retire it; '
+    '(SET.*) the container pairing rules of C19 that the table relies on: one caller of the cleanup slot, '
+    'guarded dispose on detached nodes, count adjusted once per path, list links repaired on insert, '
+    'replace and remove, no use of a disposed node.')
 ASSUMPTIONS = ['clang 14 CFG', 'set_remove/set_clear with no_dispose == 0 run the set\'s cleanup on the removed element and free it (C19)']
 
 
@@ -169,4 +173,11 @@ def run(P, R, tier):
     stats_binding(P, R)
     exit_chain(P, R)
     uar.check(P, R, 'C10.UAR.1')
+    # the table's balance rests on the container's pairing rules (anchor: src/set.c insert-replace)
+    disp = c19.cleanup_callers(P, R, 'C10.SET.WMC')
+    c19.dispose_guards(P, R, disp, 'C10.SET.GRD')
+    c19.count_paths(P, R, 'C10.SET.MPT')
+    c19.link_insert(P, R, 'C10.SET.LINK')
+    c19.link_remove(P, R, 'C10.SET.LINK')
+    c19.use_after_dispose(P, R, disp, 'C10.SET.UAF')
     return EXPLANATION, ASSUMPTIONS
